@@ -9,6 +9,12 @@ type nat =
 | O
 | S of nat
 
+(** val option_map : ('a1 -> 'a2) -> 'a1 option -> 'a2 option **)
+
+let option_map f = function
+| Some a -> Some (f a)
+| None -> None
+
 (** val fst : ('a1 * 'a2) -> 'a1 **)
 
 let fst = function
@@ -210,6 +216,20 @@ module Coq_Pos =
   | XI n' -> f (iter f (iter f x n') n')
   | XO n' -> iter f (iter f x n') n'
   | XH -> f x
+
+  (** val div2 : positive -> positive **)
+
+  let div2 = function
+  | XI p0 -> p0
+  | XO p0 -> p0
+  | XH -> XH
+
+  (** val div2_up : positive -> positive **)
+
+  let div2_up = function
+  | XI p0 -> succ p0
+  | XO p0 -> p0
+  | XH -> XH
 
   (** val size : positive -> positive **)
 
@@ -419,6 +439,15 @@ module N =
     | Npos p -> (match m with
                  | N0 -> n0
                  | Npos q -> Npos (Coq_Pos.coq_lor p q))
+
+  (** val coq_land : n -> n -> n **)
+
+  let coq_land n0 m =
+    match n0 with
+    | N0 -> N0
+    | Npos p -> (match m with
+                 | N0 -> N0
+                 | Npos q -> Coq_Pos.coq_land p q)
 
   (** val ldiff : n -> n -> n **)
 
@@ -694,6 +723,15 @@ module Z =
   let rem a b =
     snd (quotrem a b)
 
+  (** val div2 : z -> z **)
+
+  let div2 = function
+  | Z0 -> Z0
+  | Zpos p -> (match p with
+               | XH -> Z0
+               | _ -> Zpos (Coq_Pos.div2 p))
+  | Zneg p -> Zneg (Coq_Pos.div2_up p)
+
   (** val log2 : z -> z **)
 
   let log2 = function
@@ -703,6 +741,36 @@ module Z =
      | XO p -> Zpos (Coq_Pos.size p)
      | XH -> Z0)
   | _ -> Z0
+
+  (** val shiftl : z -> z -> z **)
+
+  let shiftl a = function
+  | Z0 -> a
+  | Zpos p -> Coq_Pos.iter (mul (Zpos (XO XH))) a p
+  | Zneg p -> Coq_Pos.iter div2 a p
+
+  (** val shiftr : z -> z -> z **)
+
+  let shiftr a n0 =
+    shiftl a (opp n0)
+
+  (** val coq_lor : z -> z -> z **)
+
+  let coq_lor a b =
+    match a with
+    | Z0 -> b
+    | Zpos a0 ->
+      (match b with
+       | Z0 -> a
+       | Zpos b0 -> Zpos (Coq_Pos.coq_lor a0 b0)
+       | Zneg b0 -> Zneg (N.succ_pos (N.ldiff (Coq_Pos.pred_N b0) (Npos a0))))
+    | Zneg a0 ->
+      (match b with
+       | Z0 -> a
+       | Zpos b0 -> Zneg (N.succ_pos (N.ldiff (Coq_Pos.pred_N a0) (Npos b0)))
+       | Zneg b0 ->
+         Zneg
+           (N.succ_pos (N.coq_land (Coq_Pos.pred_N a0) (Coq_Pos.pred_N b0))))
 
   (** val coq_land : z -> z -> z **)
 
@@ -1103,6 +1171,7 @@ type cres =
 | CValueError
 | CUnicodeDecodeError
 | CAbort
+| CBufferOverflow
 
 (** val uchar_accepts : bool -> z -> bool -> z -> bool **)
 
@@ -1197,3 +1266,307 @@ let py_format_char v width pad =
          (XO (XO (XI (XO (XO (XO XH))))))))))))))))))))))
   then CText (app (repeat pad (Z.to_nat (Z.sub width (Zpos XH)))) (v :: []))
   else COverflowError
+
+(** val cchar : z -> z **)
+
+let cchar x =
+  Z.modulo x (Zpos (XO (XO (XO (XO (XO (XO (XO (XO XH)))))))))
+
+(** val enc2 : z -> z list **)
+
+let enc2 v =
+  let b1 =
+    cchar
+      (Z.coq_lor (Zpos (XO (XO (XO (XO (XO (XO (XO XH))))))))
+        (Z.coq_land v (Zpos (XI (XI (XI (XI (XI XH))))))))
+  in
+  let v1 = Z.shiftr v (Zpos (XO (XI XH))) in
+  let b0 =
+    cchar
+      (Z.coq_lor (Zpos (XO (XO (XO (XO (XO (XO (XI XH))))))))
+        (Z.coq_land v1 (Zpos (XI (XI (XI (XI XH)))))))
+  in
+  b0 :: (b1 :: [])
+
+(** val enc3 : z -> z list **)
+
+let enc3 v =
+  let b2 =
+    cchar
+      (Z.coq_lor (Zpos (XO (XO (XO (XO (XO (XO (XO XH))))))))
+        (Z.coq_land v (Zpos (XI (XI (XI (XI (XI XH))))))))
+  in
+  let v1 = Z.shiftr v (Zpos (XO (XI XH))) in
+  let b1 =
+    cchar
+      (Z.coq_lor (Zpos (XO (XO (XO (XO (XO (XO (XO XH))))))))
+        (Z.coq_land v1 (Zpos (XI (XI (XI (XI (XI XH))))))))
+  in
+  let v2 = Z.shiftr v1 (Zpos (XO (XI XH))) in
+  let b0 =
+    cchar
+      (Z.coq_lor (Zpos (XO (XO (XO (XO (XO (XI (XI XH))))))))
+        (Z.coq_land v2 (Zpos (XI (XI (XI XH))))))
+  in
+  b0 :: (b1 :: (b2 :: []))
+
+(** val enc4 : z -> z list **)
+
+let enc4 v =
+  let b3 =
+    cchar
+      (Z.coq_lor (Zpos (XO (XO (XO (XO (XO (XO (XO XH))))))))
+        (Z.coq_land v (Zpos (XI (XI (XI (XI (XI XH))))))))
+  in
+  let v1 = Z.shiftr v (Zpos (XO (XI XH))) in
+  let b2 =
+    cchar
+      (Z.coq_lor (Zpos (XO (XO (XO (XO (XO (XO (XO XH))))))))
+        (Z.coq_land v1 (Zpos (XI (XI (XI (XI (XI XH))))))))
+  in
+  let v2 = Z.shiftr v1 (Zpos (XO (XI XH))) in
+  let b1 =
+    cchar
+      (Z.coq_lor (Zpos (XO (XO (XO (XO (XO (XO (XO XH))))))))
+        (Z.coq_land v2 (Zpos (XI (XI (XI (XI (XI XH))))))))
+  in
+  let v3 = Z.shiftr v2 (Zpos (XO (XI XH))) in
+  let b0 =
+    cchar
+      (Z.coq_lor (Zpos (XO (XO (XO (XO (XI (XI (XI XH))))))))
+        (Z.coq_land v3 (Zpos (XI (XI XH)))))
+  in
+  b0 :: (b1 :: (b2 :: (b3 :: [])))
+
+(** val utf8_enc_c : z -> z list **)
+
+let utf8_enc_c v =
+  if Z.ltb v (Zpos (XO (XO (XO (XO (XO (XO (XO (XO (XO (XO (XO XH))))))))))))
+  then enc2 v
+  else if Z.ltb v (Zpos (XO (XO (XO (XO (XO (XO (XO (XO (XO (XO (XO (XO (XO
+            (XO (XO (XO XH)))))))))))))))))
+       then enc3 v
+       else enc4 v
+
+(** val is_cont : z -> bool **)
+
+let is_cont b =
+  (&&) (Z.leb (Zpos (XO (XO (XO (XO (XO (XO (XO XH)))))))) b)
+    (Z.leb b (Zpos (XI (XI (XI (XI (XI (XI (XO XH)))))))))
+
+(** val is_surrogate : z -> bool **)
+
+let is_surrogate cp =
+  (&&)
+    (Z.leb (Zpos (XO (XO (XO (XO (XO (XO (XO (XO (XO (XO (XO (XI (XI (XO (XI
+      XH)))))))))))))))) cp)
+    (Z.leb cp (Zpos (XI (XI (XI (XI (XI (XI (XI (XI (XI (XI (XI (XI (XI (XO
+      (XI XH)))))))))))))))))
+
+(** val utf8_decode : z list -> z list option **)
+
+let rec utf8_decode = function
+| [] -> Some []
+| b0 :: r ->
+  if (||) (Z.ltb b0 Z0)
+       (Z.ltb (Zpos (XI (XI (XI (XI (XI (XI (XI XH)))))))) b0)
+  then None
+  else if Z.ltb b0 (Zpos (XO (XO (XO (XO (XO (XO (XO XH))))))))
+       then option_map (fun x -> b0 :: x) (utf8_decode r)
+       else if Z.ltb b0 (Zpos (XO (XI (XO (XO (XO (XO (XI XH))))))))
+            then None
+            else if Z.ltb b0 (Zpos (XO (XO (XO (XO (XO (XI (XI XH))))))))
+                 then (match r with
+                       | [] -> None
+                       | b1 :: r1 ->
+                         if is_cont b1
+                         then option_map (fun x ->
+                                (Z.add
+                                  (Z.mul
+                                    (Z.sub b0 (Zpos (XO (XO (XO (XO (XO (XO
+                                      (XI XH))))))))) (Zpos (XO (XO (XO (XO
+                                    (XO (XO XH))))))))
+                                  (Z.sub b1 (Zpos (XO (XO (XO (XO (XO (XO (XO
+                                    XH)))))))))) :: x) (utf8_decode r1)
+                         else None)
+                 else if Z.ltb b0 (Zpos (XO (XO (XO (XO (XI (XI (XI XH))))))))
+                      then (match r with
+                            | [] -> None
+                            | b1 :: l0 ->
+                              (match l0 with
+                               | [] -> None
+                               | b2 :: r2 ->
+                                 let cp =
+                                   Z.add
+                                     (Z.add
+                                       (Z.mul
+                                         (Z.sub b0 (Zpos (XO (XO (XO (XO (XO
+                                           (XI (XI XH))))))))) (Zpos (XO (XO
+                                         (XO (XO (XO (XO (XO (XO (XO (XO (XO
+                                         (XO XH))))))))))))))
+                                       (Z.mul
+                                         (Z.sub b1 (Zpos (XO (XO (XO (XO (XO
+                                           (XO (XO XH))))))))) (Zpos (XO (XO
+                                         (XO (XO (XO (XO XH)))))))))
+                                     (Z.sub b2 (Zpos (XO (XO (XO (XO (XO (XO
+                                       (XO XH)))))))))
+                                 in
+                                 if (&&)
+                                      ((&&) ((&&) (is_cont b1) (is_cont b2))
+                                        (Z.leb (Zpos (XO (XO (XO (XO (XO (XO
+                                          (XO (XO (XO (XO (XO XH))))))))))))
+                                          cp)) (negb (is_surrogate cp))
+                                 then option_map (fun x -> cp :: x)
+                                        (utf8_decode r2)
+                                 else None))
+                      else if Z.ltb b0 (Zpos (XI (XO (XI (XO (XI (XI (XI
+                                XH))))))))
+                           then (match r with
+                                 | [] -> None
+                                 | b1 :: l0 ->
+                                   (match l0 with
+                                    | [] -> None
+                                    | b2 :: l1 ->
+                                      (match l1 with
+                                       | [] -> None
+                                       | b3 :: r3 ->
+                                         let cp =
+                                           Z.add
+                                             (Z.add
+                                               (Z.add
+                                                 (Z.mul
+                                                   (Z.sub b0 (Zpos (XO (XO
+                                                     (XO (XO (XI (XI (XI
+                                                     XH))))))))) (Zpos (XO
+                                                   (XO (XO (XO (XO (XO (XO
+                                                   (XO (XO (XO (XO (XO (XO
+                                                   (XO (XO (XO (XO (XO
+                                                   XH))))))))))))))))))))
+                                                 (Z.mul
+                                                   (Z.sub b1 (Zpos (XO (XO
+                                                     (XO (XO (XO (XO (XO
+                                                     XH))))))))) (Zpos (XO
+                                                   (XO (XO (XO (XO (XO (XO
+                                                   (XO (XO (XO (XO (XO
+                                                   XH)))))))))))))))
+                                               (Z.mul
+                                                 (Z.sub b2 (Zpos (XO (XO (XO
+                                                   (XO (XO (XO (XO XH)))))))))
+                                                 (Zpos (XO (XO (XO (XO (XO
+                                                 (XO XH)))))))))
+                                             (Z.sub b3 (Zpos (XO (XO (XO (XO
+                                               (XO (XO (XO XH)))))))))
+                                         in
+                                         if (&&)
+                                              ((&&)
+                                                ((&&)
+                                                  ((&&) (is_cont b1)
+                                                    (is_cont b2))
+                                                  (is_cont b3))
+                                                (Z.leb (Zpos (XO (XO (XO (XO
+                                                  (XO (XO (XO (XO (XO (XO (XO
+                                                  (XO (XO (XO (XO (XO
+                                                  XH))))))))))))))))) cp))
+                                              (Z.leb cp (Zpos (XI (XI (XI (XI
+                                                (XI (XI (XI (XI (XI (XI (XI
+                                                (XI (XI (XI (XI (XI (XO (XO
+                                                (XO (XO
+                                                XH))))))))))))))))))))))
+                                         then option_map (fun x -> cp :: x)
+                                                (utf8_decode r3)
+                                         else None)))
+                           else None
+
+(** val cHARS_SIZE : z **)
+
+let cHARS_SIZE =
+  Zpos (XO (XO (XO (XO (XO (XO (XO (XO XH))))))))
+
+(** val from_ordinal_padded_b : z -> z -> z -> cres **)
+
+let from_ordinal_padded_b iv ulength pad =
+  let plen = Z.sub ulength (Zpos XH) in
+  if (&&) (Z.leb plen (Zpos (XO (XI (XO (XI (XI (XI (XI XH)))))))))
+       ((||)
+         (Z.ltb iv (Zpos (XO (XO (XO (XO (XO (XO (XO (XO (XO (XO (XO (XI (XI
+           (XO (XI XH)))))))))))))))))
+         (Z.ltb (Zpos (XI (XI (XI (XI (XI (XI (XI (XI (XI (XI (XI (XI (XI (XO
+           (XI XH)))))))))))))))) iv))
+  then if Z.leb iv (Zpos (XI (XI (XI (XI (XI (XI (XI XH))))))))
+       then if (||) (Z.ltb plen Z0) (Z.ltb cHARS_SIZE ulength)
+            then CBufferOverflow
+            else CText
+                   (app (repeat (cchar pad) (Z.to_nat plen))
+                     ((cchar iv) :: []))
+       else let enc = utf8_enc_c iv in
+            let cpos = Z.sub (Z.sub cHARS_SIZE (Z.of_nat (length enc))) plen
+            in
+            if (||) (Z.ltb plen Z0) (Z.ltb cpos Z0)
+            then CBufferOverflow
+            else (match utf8_decode
+                          (app (repeat (cchar pad) (Z.to_nat plen)) enc) with
+                  | Some l -> CText l
+                  | None -> CUnicodeDecodeError)
+  else if Z.leb iv (Zpos (XI (XI (XI (XI (XI (XI XH)))))))
+       then let c =
+              Z.modulo iv (Zpos (XO (XO (XO (XO (XO (XO (XO (XO XH)))))))))
+            in
+            if Z.ltb (Zpos (XI (XI (XI (XI (XI (XI XH))))))) c
+            then CAbort
+            else CText (app (repeat pad (Z.to_nat plen)) (c :: []))
+       else (match from_ordinal iv with
+             | CText l -> CText (app (repeat pad (Z.to_nat plen)) l)
+             | x -> x)
+
+(** val uchar_to_unicode_b : bool -> z -> bool -> z -> z -> z -> cres **)
+
+let uchar_to_unicode_b fixed w s value width pad =
+  if negb (uchar_accepts fixed w s value)
+  then COverflowError
+  else let iv = wrap (Zpos (XO (XO (XO (XO (XO XH)))))) true value in
+       if Z.leb width (Zpos XH)
+       then from_ordinal iv
+       else from_ordinal_padded_b iv width pad
+
+(** val utf8_ref : z -> z list **)
+
+let utf8_ref cp =
+  if Z.ltb cp (Zpos (XO (XO (XO (XO (XO (XO (XO XH))))))))
+  then cp :: []
+  else if Z.ltb cp (Zpos (XO (XO (XO (XO (XO (XO (XO (XO (XO (XO (XO
+            XH))))))))))))
+       then (Z.add (Zpos (XO (XO (XO (XO (XO (XO (XI XH))))))))
+              (Z.div cp (Zpos (XO (XO (XO (XO (XO (XO XH))))))))) :: (
+              (Z.add (Zpos (XO (XO (XO (XO (XO (XO (XO XH))))))))
+                (Z.modulo cp (Zpos (XO (XO (XO (XO (XO (XO XH))))))))) :: [])
+       else if Z.ltb cp (Zpos (XO (XO (XO (XO (XO (XO (XO (XO (XO (XO (XO (XO
+                 (XO (XO (XO (XO XH)))))))))))))))))
+            then (Z.add (Zpos (XO (XO (XO (XO (XO (XI (XI XH))))))))
+                   (Z.div cp (Zpos (XO (XO (XO (XO (XO (XO (XO (XO (XO (XO
+                     (XO (XO XH))))))))))))))) :: ((Z.add (Zpos (XO (XO (XO
+                                                     (XO (XO (XO (XO
+                                                     XH))))))))
+                                                     (Z.modulo
+                                                       (Z.div cp (Zpos (XO
+                                                         (XO (XO (XO (XO (XO
+                                                         XH)))))))) (Zpos (XO
+                                                       (XO (XO (XO (XO (XO
+                                                       XH))))))))) :: (
+                   (Z.add (Zpos (XO (XO (XO (XO (XO (XO (XO XH))))))))
+                     (Z.modulo cp (Zpos (XO (XO (XO (XO (XO (XO XH))))))))) :: []))
+            else (Z.add (Zpos (XO (XO (XO (XO (XI (XI (XI XH))))))))
+                   (Z.div cp (Zpos (XO (XO (XO (XO (XO (XO (XO (XO (XO (XO
+                     (XO (XO (XO (XO (XO (XO (XO (XO XH))))))))))))))))))))) :: (
+                   (Z.add (Zpos (XO (XO (XO (XO (XO (XO (XO XH))))))))
+                     (Z.modulo
+                       (Z.div cp (Zpos (XO (XO (XO (XO (XO (XO (XO (XO (XO
+                         (XO (XO (XO XH)))))))))))))) (Zpos (XO (XO (XO (XO
+                       (XO (XO XH))))))))) :: ((Z.add (Zpos (XO (XO (XO (XO
+                                                 (XO (XO (XO XH))))))))
+                                                 (Z.modulo
+                                                   (Z.div cp (Zpos (XO (XO
+                                                     (XO (XO (XO (XO
+                                                     XH)))))))) (Zpos (XO (XO
+                                                   (XO (XO (XO (XO XH))))))))) :: (
+                   (Z.add (Zpos (XO (XO (XO (XO (XO (XO (XO XH))))))))
+                     (Z.modulo cp (Zpos (XO (XO (XO (XO (XO (XO XH))))))))) :: [])))
